@@ -223,6 +223,26 @@ def check_vector(ctx, rng, st, flags):
     # (i) ignored slots carry hostile values: bit-identical outputs
     ign = np.where((flags == 0) | (flags == 9))[0]
     if ign.size:
+        # (i-0) ... and nothing is left in them by a source fitted before on the same fitter in which those bands *were* fitted:
+        #       fit an all-flag-1 source, then this source again: bit-identical to the first time
+        fl1 = np.ones(n, int)
+        fx1, er1 = draw_photometry(rng, st, fl1)
+        try:
+            fit(fl1, fx1, er1)
+            again = fit(flags, flux, err)
+        except Exception as exc:
+            ctx.raised(exc, 'ignored:refit-raised', 'fit raised when repeated after a source with every band fitted: %r' % (exc,), wit)
+            again = None
+        if again is not None:
+            ctx.event('pair:ignored-after-fully-fitted-source')
+            an = by_name(again)
+            for name, (a, s, c, mf) in bn.items():
+                a2, s2, c2, mf2 = an[name]
+                if not (same_f(a, a2) and same_f(s, s2) and same_f(c, c2) and (mf is None or np.array_equal(mf, mf2, equal_nan=True))):
+                    ctx.violation('ignored-slot-influences-fit:after-other-source',
+                                  'a slot flagged 0/9 contributes to the fit output once another source was fitted in that band before',
+                                  dict(wit, previous_flux=fx1, previous_error=er1, model=name, before=(a, s, c), after=(a2, s2, c2)))
+                    break
         fx, er = flux.copy(), err.copy()
         for j in ign:
             fx[j] = HOSTILE[int(rng.integers(len(HOSTILE)))]
@@ -398,7 +418,8 @@ def run(ctx):
                'limits carry positive finite fluxes (quantifier of C01)',
                '3-D mode: penalties are decided by the numeric reference of C02 (the penalty can move the best distance)')
     ctx.require_events('fit:base', 'pair:ignored-hostile', 'pair:band-removed', 'pair:limit-vs-flag0',
-                       'pair:confidence0-vs-flag0', 'pair:flag1-as-flag4', 'reference-oracle', 'pair:live-source-reflagged', 'pair:source-read-from-data-line')
+                       'pair:confidence0-vs-flag0', 'pair:flag1-as-flag4', 'reference-oracle', 'pair:live-source-reflagged', 'pair:source-read-from-data-line',
+                       'pair:ignored-after-fully-fitted-source')
     ctx.require_regimes('limit-violated:c=1', 'limit-violated:0<c<1', 'limit-satisfied', 'limit-penalised:3d', 'n=1', 'n=4')
     sets = [Setup(ctx, rng, '2d'), Setup(ctx, rng, '3d')]
     vs = vectors(ctx)
